@@ -93,11 +93,49 @@ def handleImports (line : String) : String :=
         p ++ "=" ++ (if n == lastPathElement p then "" else n))
       "I " ++ " ".intercalate names ++ " | " ++ " ".intercalate (sortStrs specs)
 
+def contStr : Inst.Cont → String
+  | .empty => "empty" | .part => "part" | .full => "full"
+
+def sfileStr : Inst.SFile → String
+  | .absent => "absent"
+  | .old none => "old"
+  | .old (some m) => s!"old:{m}"
+  | .new c none => s!"new:{contStr c}:oldmode"
+  | .new c (some m) => s!"new:{contStr c}:{m}"
+
+def stepName (s : Inst.Step) : String :=
+  (match s.op with
+   | .mkdirAll => "mkdir" | .createTemp => "create" | .write .tmp => "write" | .write .final => "write-final"
+   | .sync => "sync" | .closeF => "close" | .chmod .tmp _ => "chmod" | .chmod .final _ => "chmod-final"
+   | .rename => "rename" | .remove .tmp => "remove" | .remove .final => "remove-final" | .unknown w => "unknown(" ++ w ++ ")")
+  ++ (if s.checked then "" else "!unchecked")
+
+def witnessStr : Option (Bool × Nat × Bool) → String
+  | none => "none"
+  | some (ex, k, p) => s!"{ex} {k} {p}"
+
+/-- requests about the regenerated install step list -/
 def handleInstall (what : String) : String :=
-  match what with
-  | "crash" => s!"F {repr (Inst.crashWitness Gen.installSteps Gen.fileMode)}"
-  | "fault" => s!"F {repr (Inst.faultWitness Gen.installSteps Gen.installCleanup)}"
-  | "steps" => s!"F {Gen.installSteps.length}"
+  match words what with
+  | ["crash"] => "F " ++ witnessStr (Inst.crashWitness Gen.installSteps Gen.fileMode)
+  | ["fault"] => "F " ++ witnessStr (Inst.faultWitness Gen.installSteps Gen.installCleanup)
+  | ["steps"] => "F " ++ " ".intercalate (Gen.installSteps.map stepName)
+  | ["shape"] => s!"F unknown={Inst.hasUnknown Gen.installSteps Gen.installCleanup} crashSafe={Inst.crashSafe Gen.installSteps Gen.fileMode} completes={Inst.completes Gen.installSteps Gen.installCleanup Gen.fileMode} faultSafe={Inst.faultSafe Gen.installSteps Gen.installCleanup} mode={Gen.fileMode}"
+  | ["crashstate", ex, k, p] =>
+    match k.toNat? with
+    | some k =>
+      let s := Inst.sRunCrash Gen.installSteps k (p == "true") (Inst.sInit (ex == "true"))
+      s!"F dest={sfileStr s.dest} tmp={sfileStr s.tmp}"
+    | none => "BAD"
+  | ["failstate", ex, i, p] =>
+    match i.toNat? with
+    | some i =>
+      let r := Inst.sRunFail Gen.installSteps Gen.installCleanup i (p == "true") (Inst.sInit (ex == "true"))
+      s!"F reported={r.reported} dest={sfileStr r.st.dest} tmp={sfileStr r.st.tmp}"
+    | none => "BAD"
+  | ["okstate", ex] =>
+    let r := Inst.sRunOK Gen.installSteps Gen.installCleanup (Inst.sInit (ex == "true"))
+    s!"F reported={r.reported} dest={sfileStr r.st.dest} tmp={sfileStr r.st.tmp}"
   | _ => "BAD"
 
 def handle (line : String) : String :=
